@@ -400,15 +400,26 @@ func rdCase(src string, c cfg, way string, helpersCompiled bool, name string) *v
 	defer os.RemoveAll(dir)
 
 	// reference: an engine that was given the sources
-	ref := twig.New()
-	c.apply(ref)
-	for _, h := range helpers {
-		ref.RegisterString(h[0], h[1])
+	reference := func() (want result) {
+		ref := twig.New()
+		c.apply(ref)
+		for _, h := range helpers {
+			ref.RegisterString(h[0], h[1])
+		}
+		want.regErr = ref.RegisterString(name, src) != nil
+		if !want.regErr {
+			want = renderAll(ref, name)
+		}
+		return want
 	}
-	var want result
-	want.regErr = ref.RegisterString(name, src) != nil
-	if !want.regErr {
-		want = renderAll(ref, name)
+	want := reference()
+	if again := reference(); again != want {
+		// two engines given the same SOURCE disagree (a mutated template that prints a macro object or
+		// another value holding a pointer shows a memory address): the source has no single rendering
+		// to be interchangeable with. That is C03's subject (KF-C03-1), not this property's.
+		o.Class = "rd:source-render-not-repeatable"
+		o.Counters["skipped_unrepeatable_source"] = 1
+		return o
 	}
 
 	// twin: an engine that was given the compiled form
